@@ -365,7 +365,7 @@ def shards(tier):
 def run_shard(spec, ctx):
     s = strategies(ctx.tier)
     rec = core.Rec()
-    sizes = {"a": ctx.pick(700, 12000), "b": ctx.pick(1500, 25000), "c": ctx.pick(900, 15000), "d": ctx.pick(500, 8000), "e": ctx.pick(25, 400)}
+    sizes = {"a": ctx.pick(600, 9000), "b": ctx.pick(1200, 18000), "c": ctx.pick(800, 12000), "d": ctx.pick(400, 6000), "e": ctx.pick(22, 330)}
     for k in "abcde":
         core.hyp_shard(s[k], check_case, ctx, sizes[k], rec=rec, tag=k)
     return rec
